@@ -5,8 +5,9 @@ pub struct Env { pub text: Seq<u8>, pub p: TokenPredictorParameters }
 /// A-DET: the distances `hash.iterate(input, 0)` yields, in order, are a function of the abstract chain state, the
 /// plaintext, the parameters and the position; the chain is finite (hash_chain.rs is not verified)
 pub uninterp spec fn sp_chain(hv: int, e: Env, pos: int) -> Seq<u32>;
-/// A-DET: the window size the holder was constructed with (1 << window_bits; the constructor is not verified)
-pub uninterp spec fn sp_window(p: TokenPredictorParameters) -> u32;
+/// the window size the holder is constructed with (`1 << params.window_bits`; that the unverified constructor stores
+/// exactly this is part of the holder invariant hwf, A-DET)
+pub open spec fn sp_window(p: TokenPredictorParameters) -> u32 { if p.window_bits < 32 { 1u32 << p.window_bits } else { 0 } }
 
 pub open spec fn hop_maxdist(e: Env, pos: int) -> int { if pos < sp_window(e.p) { pos } else { sp_window(e.p) as int } }
 /// the `len` bytes at pos repeat the bytes `dist` earlier (what an LZ77 reference of that length and distance means)
@@ -77,3 +78,90 @@ pub proof fn lemma_hop_inverse(hv: int, len: u32, dist: u32, e: Env, pos: int)
         lemma_hops_walk_inverse(sp_chain(hv, e, pos), 0, 0, 0xffff, e, pos, len as int, dist as int);
     }
 }
+
+// ---- the match search (hash_chain_holder.rs match_token_offset::<OFFSET>): formerly part of A-DET ----
+/// A-DET: how many bytes the hash of the configured algorithm reads (H::num_hash_bytes())
+pub uninterp spec fn sp_hash_bytes(p: TokenPredictorParameters) -> int;
+/// A-DET: the distances `hash.iterate(input, 1)` yields (the lazy-match probe one byte ahead)
+pub uninterp spec fn sp_chain1(hv: int, e: Env, pos: int) -> Seq<u32>;
+
+/// parameters under which the match search is free of arithmetic faults: the window is at least MIN_LOOKAHEAD and at
+/// most 32 KiB, the chain budget is positive -- also after zlib's quartering for "good" matches (the estimator only
+/// produces such vectors: U19 / U23)
+pub open spec fn pp_ok(p: TokenPredictorParameters) -> bool {
+    if p.strategy is Store || p.strategy is HuffOnly {
+        // no dictionary: the search returns before it touches the window or the chain budget
+        !p.very_far_matches_detected
+    } else {
+        &&& 262 <= sp_window(p) <= 32768 && p.max_chain >= 1
+        &&& (!p.zlib_compatible || lazy_ok(p.matching_type, p.max_chain))
+    }
+}
+/// the chain budget handed to a search is positive wherever a search can take place
+pub open spec fn depth_ok(p: TokenPredictorParameters, max_depth: u32) -> bool { max_depth >= 1 || p.strategy is Store || p.strategy is HuffOnly }
+/// prefix_compare: 0 unless the byte at best_len and the first three bytes agree, otherwise the length of the common
+/// prefix, at most max_len
+pub open spec fn pc_run(s1: Seq<u8>, s2: Seq<u8>, i: int, max: int) -> int
+    decreases max - i
+{ if i < max && 0 <= i < s1.len() && i < s2.len() && s1[i] == s2[i] { pc_run(s1, s2, i + 1, max) } else { i } }
+pub open spec fn pc_spec(s1: Seq<u8>, s2: Seq<u8>, best_len: int, max_len: int) -> int {
+    if s1[best_len] != s2[best_len] || s1[0] != s2[0] || s1[1] != s2[1] || s1[2] != s2[2] { 0 } else { pc_run(s1, s2, 3, max_len) }
+}
+/// the constants of one search
+pub struct MK { pub sp: int, pub max_len: int, pub hop0: int, pub hop1: int, pub nice: int, pub d3: int, pub depth: u32 }
+pub open spec fn mt_fin(best: Option<PreflateTokenReference>) -> MatchResult {
+    match best { Some(r) => MatchResult::Success(r), None => MatchResult::NoMoreMatchesFound }
+}
+/// the chain walk of match_token_offset from index i on
+pub open spec fn mt_walk(c: Seq<u32>, i: int, first: bool, best_len: int, best: Option<PreflateTokenReference>, left: int, k: MK, text: Seq<u8>) -> MatchResult
+    decreases c.len() - i
+{
+    if i < 0 || i >= c.len() { mt_fin(best) } else {
+        let d = c[i] as int;
+        if first && d > k.hop0 { MatchResult::DistanceLargerThanHop0(c[i], k.hop0 as u32) }
+        else if !first && d > k.hop1 { mt_fin(best) }
+        else {
+            let ml = pc_spec(text.subrange(k.sp - d, text.len() as int), text.subrange(k.sp, text.len() as int), best_len, k.max_len);
+            let r = PreflateTokenReference { len: (ml - 3) as u8, dist: d as u16, irregular258: false };
+            if ml > best_len && ml >= k.nice && (ml > 3 || d <= k.d3) { MatchResult::Success(r) }
+            else if ml > best_len && ml >= k.max_len { MatchResult::Success(r) }
+            else {
+                let bl2 = if ml > best_len { ml } else { best_len };
+                let b2 = if ml > best_len { Some(r) } else { best };
+                if left - 1 == 0 { match b2 { Some(x) => MatchResult::Success(x), None => MatchResult::MaxChainExceeded(k.depth) } }
+                else { mt_walk(c, i + 1, false, bl2, b2, left - 1, k, text) }
+            }
+        }
+    }
+}
+pub open spec fn min2(a: int, b: int) -> int { if a < b { a } else { b } }
+pub open spec fn max2(a: int, b: int) -> int { if a < b { b } else { a } }
+/// match_token_offset::<off> as a function of the chain
+pub open spec fn sp_match(off: int, c: Seq<u32>, prev_len: u32, max_depth: u32, e: Env, pos: int) -> MatchResult {
+    let sp = pos + off;
+    let max_len = min2(e.text.len() - sp, 258);
+    if max_len < max2(prev_len + 1, max2(sp_hash_bytes(e.p), 3)) { MatchResult::NoInput } else {
+        let to_start = sp - (if e.p.matches_to_start_detected { 0int } else { 1int });
+        let w = sp_window(e.p) as int;
+        let nice = min2(e.p.nice_length as int, max_len);
+        if e.p.very_far_matches_detected {
+            let h = min2(to_start, w);
+            mt_walk(c, 0, true, prev_len as int, None, max_depth as int, MK { sp, max_len, hop0: h, hop1: h, nice, d3: e.p.max_dist_3_matches as int, depth: max_depth }, e.text)
+        } else {
+            match e.p.strategy {
+                PreflateStrategy::HuffOnly => MatchResult::NoMoreMatchesFound,
+                PreflateStrategy::Store => MatchResult::NoMoreMatchesFound,
+                PreflateStrategy::RleOnly => mt_walk(c, 0, true, prev_len as int, None, max_depth as int, MK { sp, max_len, hop0: 1, hop1: 1, nice, d3: e.p.max_dist_3_matches as int, depth: max_depth }, e.text),
+                PreflateStrategy::Default => {
+                    let md = w - 262 + 1;
+                    mt_walk(c, 0, true, prev_len as int, None, max_depth as int, MK { sp, max_len, hop0: min2(to_start, md), hop1: min2(to_start, md - 1), nice, d3: e.p.max_dist_3_matches as int, depth: max_depth }, e.text)
+                },
+            }
+        }
+    }
+}
+/// the two probes the predictor uses (formerly uninterpreted)
+#[verifier::opaque]
+pub open spec fn sp_match0(hv: int, prev_len: u32, max_depth: u32, e: Env, pos: int) -> MatchResult { sp_match(0, sp_chain(hv, e, pos), prev_len, max_depth, e, pos) }
+#[verifier::opaque]
+pub open spec fn sp_match1(hv: int, prev_len: u32, max_depth: u32, e: Env, pos: int) -> MatchResult { sp_match(1, sp_chain1(hv, e, pos), prev_len, max_depth, e, pos) }
